@@ -187,7 +187,7 @@ def run(rep):
     ims_open = any((x["cands"] or x["inconclusive"]) for x in results if x.get("fn") == "imsaak")
     if cands and confirm_rounding(rep, results):
         cands = [c for x in results for c in x["cands"] if x.get("fn") == "imsaak"]
-    if cands or ims_open or any(x["inconclusive"] for x in results):
+    if cands or ims_open or any(x["inconclusive"] for x in results) or not quick:
         modes = sorted({c["inputs"].get("mode") for c in cands if c["inputs"].get("mode")}) or rounding.MODES
         if ims_open:
             modes = rounding.MODES
@@ -226,7 +226,7 @@ def run(rep):
             if all(v.key in kf for v in rep.violations if "hour=" in v.desc):
                 o["status"] = "holds"
                 o["note"] = "fails only on the recorded known finding (f64 sliver); see known_findings.json"
-    rep.bounds["bit-precise slices (engine K)"] = ("every f64 hour of a slice [lo,hi) x mode x key with offset 0: quick 4 harnesses, thorough 85; "
+    rep.bounds["bit-precise slices (engine K)"] = ("every f64 hour of a slice [lo,hi) x mode x key with offset 0: quick 4 harnesses, thorough 64 (3 modes x 7 keys x slices [-24,0), [0,12), [12,24) + the full-domain one; hours >= 24 before rounding are engine M only: CBMC fmod model); "
                                                    "`ex` harnesses exclude the sliver sec >= 59.9999 of the recorded finding")
     rep.samples = [{"obligation": o["name"], "status": o["status"], "paths": o.get("paths")} for o in rep.obligations[:5]]
 
